@@ -2,9 +2,19 @@
 Abstract two-node model for C31 (concurrent handshakes): what handshake_manager.go / hostmap.go /
 connection_manager.go do to the tunnel lists of two nodes X and Y that handshake with each other, with an
 adversarial scheduler (start, retransmit, deliver any in-flight message any number of times, drop, give
-up, connection-manager swap, tunnel deletion). Packet contents are symbolic: a first message carries the
-handshake id (which doubles as the peer-reported time) and the initiator index; a reply carries both
-indexes. Ghost fields: `removed` (tunnels a side deleted or evicted), `swaps` (primary swaps performed).
+up, connection-manager swap, tunnel deletion, connection-manager traffic checks). Packet contents are
+symbolic: a first message carries the handshake identity `hs` (the bytes of the first packet: what
+CheckAndComplete compares for ErrAlreadySeen) and the initiator index; a reply carries both indexes.
+
+Everything the code takes from crypto/rand or from a clock is chosen by the SCHEDULER (arguments of `start`
+and `deliver`): the handshake identity, the initiator index, the responder index. The rejections of
+CheckAndComplete that leave the hostmap untouched and send nothing (ErrExistingHostInfo — decided by comparing
+the peers' own clocks —, ErrLocalIndexCollision) have no step of their own: for the abstract state they are the
+same as the loss of the message, which the scheduler can always choose. (An earlier version of this model used
+one global counter both as handshake identity and as peer-reported time and took indexes from the same counter;
+the node model — the one tied to the code — separates them: two different handshakes can carry the same time, and
+indexes come from a scripted random stream and can collide. See Lemmas/HsSim*.lean for the simulation.)
+Ghost fields: `removed` (tunnels a side deleted or evicted), `swaps` (primary swaps performed).
 -/
 import Nebula.Gen.HsManager
 import Nebula.Model.ConnMgr
@@ -38,24 +48,28 @@ structure Side where
 
 def Side.held (s : Side) : List Tun := s.tunnels ++ s.removed
 
-/-- unlockedInnerAddHostInfo: new primary, oldest retired beyond MaxHostInfosPerVpnIp -/
+/-- unlockedInnerAddHostInfo: new primary, oldest retired beyond MaxHostInfosPerVpnIp. The installed tunnel is a
+new object: it carries no pendingDeletion mark. -/
 def Side.install (s : Side) (t : Tun) : Side :=
   let l := t :: s.tunnels
   if l.length > Nebula.Gen.hsm_MaxHostInfosPerVpnIp then
-    { s with tunnels := l.dropLast, removed := s.removed ++ (l.getLast?).toList }
-  else { s with tunnels := l }
+    { s with tunnels := l.dropLast, removed := s.removed ++ (l.getLast?).toList, pdl := s.pdl.filter (· != t) }
+  else { s with tunnels := l, pdl := s.pdl.filter (· != t) }
 
 structure St where
   x : Side
   y : Side
-  fresh : Nat := 1
   deriving DecidableEq, Repr, Inhabited
 
 inductive Step
-  | start (onX : Bool)
+  /-- the first attempt of a handshake (buildStage0Packet + first transmission): `hs` identifies the first packet,
+  `idx` is the index allocateIndex returned -/
+  | start (onX : Bool) (hs idx : Nat)
   | resend (onX : Bool)
   | giveUp (onX : Bool)
-  | deliver (toX : Bool) (k : Nat)
+  /-- delivery of in-flight message `k`; `ridx` is the index the receiver's Machine drew for its answer (used only if
+  the message is a first message that installs a tunnel) -/
+  | deliver (toX : Bool) (k : Nat) (ridx : Nat)
   | drop (toX : Bool) (k : Nat)
   | swap (onX : Bool) (j : Nat)
   | del (onX : Bool) (j : Nat)
@@ -71,47 +85,42 @@ def St.set (s : St) (onX : Bool) (v : Side) : St := if onX then { s with x := v 
 def shouldSwap (me peer : Side) : Bool := decide (peer.addr ≥ me.addr)
 
 /-- a side receives a message; returns the side and what it sends to the peer -/
-def Side.receive (me : Side) (fresh : Nat) : Msg → Side × List Msg × Nat
+def Side.receive (me : Side) (ridx : Nat) : Msg → Side × List Msg
   | .m1 hs idx =>
-    match me.tunnels.find? (fun t => t.hs == hs && !t.init) with
-    | some t => (me, [.m2 hs t.loc t.rem], fresh)                       -- ErrAlreadySeen: cached reply
-    | none =>
-      match me.tunnels.head? with
-      | some p =>
-        if !p.init && p.hs ≥ hs then (me, [], fresh)                      -- ErrExistingHostInfo
-        else (me.install { loc := fresh, rem := idx, hs := hs, init := false }, [.m2 hs fresh idx], fresh + 1)
-      | none => (me.install { loc := fresh, rem := idx, hs := hs, init := false }, [.m2 hs fresh idx], fresh + 1)
+    match me.tunnels.find? (fun t => t.hs == hs) with
+    | some t => (me, if t.init then [] else [.m2 hs t.loc t.rem])          -- ErrAlreadySeen: cached reply (if any)
+    | none => (me.install { loc := ridx, rem := idx, hs := hs, init := false }, [.m2 hs ridx idx])
   | .m2 hs r i =>
     match me.pending with
     | some (ph, pi) =>
       if ph == hs && pi == i then
-        ({ (me.install { loc := i, rem := r, hs := hs, init := true }) with pending := none }, [], fresh)
-      else (me, [], fresh)
-    | none => (me, [], fresh)
+        ({ (me.install { loc := i, rem := r, hs := hs, init := true }) with pending := none }, [])
+      else (me, [])
+    | none => (me, [])
 
 def St.step (s : St) : Step → St
-  | .start onX =>
+  | .start onX hs idx =>
     let me := s.get onX
     match me.pending with
     | some _ => s
     | none =>
       let peer := s.get (!onX)
-      let s1 := s.set onX { me with pending := some (s.fresh, s.fresh + 1) }
-      { (s1.set (!onX) { peer with inbox := peer.inbox ++ [.m1 s.fresh (s.fresh + 1)] }) with fresh := s.fresh + 2 }
+      let s1 := s.set onX { me with pending := some (hs, idx) }
+      s1.set (!onX) { peer with inbox := peer.inbox ++ [.m1 hs idx] }
   | .resend onX =>
     match (s.get onX).pending with
     | some (h, i) => let peer := s.get (!onX); s.set (!onX) { peer with inbox := peer.inbox ++ [.m1 h i] }
     | none => s
   | .giveUp onX => let me := s.get onX; s.set onX { me with pending := none }
-  | .deliver toX k =>
+  | .deliver toX k ridx =>
     let me := s.get toX
     match me.inbox[k]? with
     | none => s
     | some m =>
-      let (me', out, f) := me.receive s.fresh m
-      let s1 := s.set toX me'
+      let r := me.receive ridx m
+      let s1 := s.set toX r.1
       let peer := s1.get (!toX)
-      { (s1.set (!toX) { peer with inbox := peer.inbox ++ out }) with fresh := f }
+      s1.set (!toX) { peer with inbox := peer.inbox ++ r.2 }
   | .drop toX k => let me := s.get toX; s.set toX { me with inbox := me.inbox.eraseIdx k }
   | .swap onX j =>
     let me := s.get onX
